@@ -110,6 +110,7 @@ func (e *Engine) Discharge(cfg SolverCfg) {
 		ob    *Obligation
 		file  string
 		qfile string // quantifier-free weakening, tried first
+		sfile string // the same with the strict instantiation policy (smaller), tried before that
 	}
 	var jobs []job
 	for i, ob := range e.Obls {
@@ -159,6 +160,11 @@ func (e *Engine) Discharge(cfg SolverCfg) {
 			if !strings.Contains(q2, "(forall ") && !strings.Contains(q2, "(exists ") {
 				j.qfile = filepath.Join(dir, fmt.Sprintf("q%04d.qf.smt2", i))
 				os.WriteFile(j.qfile, []byte(q2), 0o644)
+				q3 := "; " + ob.Name + " (quantified hypotheses replaced by instances, strict policy)\n" + c.QueryOpt(e.prepareGoalMode2(ob.Hyp, ob.Goal, true, true), ob.ModelTerms, true)
+				if len(q3) < len(q2)*3/4 && !strings.Contains(q3, "(forall ") && !strings.Contains(q3, "(exists ") {
+					j.sfile = filepath.Join(dir, fmt.Sprintf("q%04d.qfs.smt2", i))
+					os.WriteFile(j.sfile, []byte(q3), 0o644)
+				}
 			}
 		}
 		jobs = append(jobs, j)
@@ -171,12 +177,22 @@ func (e *Engine) Discharge(cfg SolverCfg) {
 		go func(j job) {
 			defer wg.Done()
 			defer func() { <-sem }()
+			if j.sfile != "" {
+				// stage 0: the small quantifier-free weakening
+				c0 := cfg
+				if c0.Timeout > 8*time.Second {
+					c0.Timeout = 8 * time.Second
+				}
+				tmp := &Obligation{Name: j.ob.Name, ModelNames: j.ob.ModelNames}
+				raceOne(tmp, j.sfile, c0)
+				if tmp.Status == "proved" {
+					j.ob.Status, j.ob.Solver, j.ob.Seconds, j.ob.Outputs = "proved", tmp.Solver+"(qf-strict)", tmp.Seconds, tmp.Outputs
+					return
+				}
+			}
 			if j.qfile != "" {
 				// stage 1: the quantifier-free weakening; unsat is a proof
 				c1 := cfg
-				if c1.Timeout > 5*time.Second {
-					c1.Timeout = 5 * time.Second
-				}
 				tmp := &Obligation{Name: j.ob.Name, ModelNames: j.ob.ModelNames}
 				raceOne(tmp, j.qfile, c1)
 				if tmp.Status == "proved" {
@@ -228,7 +244,7 @@ func raceOne(ob *Obligation, file string, cfg SolverCfg) {
 	}
 	// staggered start: the first solver gets a head start
 	start(cfg.Solvers[0])
-	stagger := time.After(700 * time.Millisecond)
+	stagger := time.After(2500 * time.Millisecond)
 	ob.Outputs = map[string]string{}
 	want := "unsat"
 	if ob.Cover {
